@@ -659,6 +659,17 @@ static void run_c10() {
         int keep = cfg.opt;
         run_termset(*g_list, sets[0], longs, true, 0);
         run_termset(*g_stmt, sets[0], longs, true, 1);
+        // longest-match fallback over many bytes and lines: the second term needs 40 more "newline x" groups and a final q; without them the lexer has read
+        // up to 80 bytes (40 lines) ahead and must deliver the single x where it started - positions of everything after it must be unaffected
+        if (cfg.shard == 0) {
+            std::vector<TermSpec> fb = {{'c', "x"}, {'r', "x(\\x0ax){40}q"}, {'c', ";"}};
+            std::vector<std::string> fin;
+            for (int k : {1, 2, 39, 40, 41, 80, 81}) { std::string run = "x"; for (int i = 0; i < k; ++i) run += "\nx"; for (const char* tail : {"", "q", ";", " ;", "\n;x", "q;x", "?", "\n\n x ;"}) fin.push_back(run + tail); fin.push_back("; " + run + "q;" + run + ";"); }
+            run_termset(*g_list, fb, fin, true, 0);
+            run_termset(*g_stmt, fb, fin, true, 1);
+            run_termset(*g_list, fb, fin, false, 0);
+            ctr["C10.fallback_sweep_inputs"] += (long)fin.size() * 3;
+        }
         g_step_limit = saved; cfg.opt = keep; ctr["C10.long_position_sweep_inputs"] += (long)longs.size() * 2;
     }
 }
